@@ -12,7 +12,7 @@
      total_order cmp           cmp a b = Eq -> a = b, reflexive, antisymmetric (CompOpp), transitive
      OCrash / OFuel            the C code would dereference NULL / the iteration loop ran out of fuel *)
 From Coq Require Import List ZArith Sorted.
-From CelloV Require Import RBTree RBProofs RBBalance RBIter RBRefine.
+From CelloV Require Import Generated RBTree RBProofs RBBalance RBIter RBRefine RBSource.
 Import ListNotations.
 
 (* the empty tree satisfies the invariant *)
@@ -109,6 +109,14 @@ Print Assumptions tree_int_keys_total_order.
 Theorem tree_string_keys_total_order : total_order bytes_cmp.
 Proof. exact bytes_cmp_total. Qed.
 Print Assumptions tree_string_keys_total_order.
+
+(* the rules of src/Tree.c that the model hard-codes (orientation of the descent, colour of a new node, end at which
+   iteration starts, which node Tree_Rem copies), re-extracted from the working tree on every run (tools/genx_tree.py) *)
+Theorem tree_source_rules_as_modelled :
+  tree_search_left_when = Lt /\ tree_set_left_when = Lt /\ tree_new_node_red = true /\
+  tree_iter_from_left = true /\ tree_pred_is_left_max = true.
+Proof. exact source_rules_as_modelled. Qed.
+Print Assumptions tree_source_rules_as_modelled.
 
 (* ---------------------------------------------------------------- non-vacuity *)
 (* a history with recolourings, inner and outer rotations, removal of a node with two children (predecessor
